@@ -411,7 +411,23 @@ def gen_route(repo):
     out.append('(* json_io.py: network_from_json, weight of the edge leaving a node (cm; is_fibre = isinstance(node, Fiber)) *)')
     out.append(f'Definition g_edge_weight (is_fibre : bool) (length_cm : Z) : Z :=\n'
                f'  if is_fibre then length_cm else {round(cm)}.\n')
+    # ---- compute_path_dsjctn step 4: the include clause of C11 for the members of a synchronisation vector
+    ok, strict = step4_terms(find(tree, 'compute_path_dsjctn'))
+    out.append('(* request.py: compute_path_dsjctn step 4 (full_path = the candidate, short_path = its ROADM short list) *)')
+    out.append(f'Definition g_vector_include_ok (nodes_list full_path short_path : list Z) : bool :=\n  {ok}.')
+    out.append(f'Definition g_vector_strict (strict_list : list bool) : bool :=\n  {strict}.\n')
     return '\n'.join(out)
+
+
+def step4_terms(fn):
+    b = find_block(fn, STEP4_TEMPLATE, 'compute_path_dsjctn step 4')
+    tr = RTr({'allpaths[id(pth)].req.nodes_list': 'nodes_list', 'allpaths[id(pth)].pth': 'full_path', 'pth': 'short_path',
+              'allpaths[id(pth)].req.loose_list': 'strict_list'})
+    tr.name = lambda n, _tr=tr: _name_unparse(_tr, n)
+    np_ = b['H_not_part']
+    if not (isinstance(np_, ast.UnaryOp) and isinstance(np_.op, ast.Not)):
+        raise Unsupported('compute_path_dsjctn step 4: the include test is not of the form `not ...`')
+    return tr.b(np_.operand), tr.b(b['H_strict'])
 
 
 def gen_disjoint(repo):
@@ -443,16 +459,10 @@ def gen_disjoint(repo):
     out.append(f'Definition g_step2_conflicts (pth1 pth1_reversed pth : list Z) : Z :=\n  {tr.e(b["H_count"])}.')
     out.append(f'Definition g_step2_accept (all_disjoint : Z) : bool :=\n  {tr.b(b["H_accept"])}.\n')
     # ---- step 4
-    b = find_block(fn, STEP4_TEMPLATE, 'compute_path_dsjctn step 4')
-    tr = RTr({'allpaths[id(pth)].req.nodes_list': 'nodes_list', 'allpaths[id(pth)].pth': 'full_path', 'pth': 'short_path',
-              'allpaths[id(pth)].req.loose_list': 'strict_list'})
-    tr.name = lambda n, _tr=tr: _name_unparse(_tr, n)
-    np_ = b['H_not_part']
-    if not (isinstance(np_, ast.UnaryOp) and isinstance(np_.op, ast.Not)):
-        raise Unsupported('compute_path_dsjctn step 4: the include test is not of the form `not ...`')
+    ok4, strict4 = step4_terms(fn)
     out.append('(* request.py: compute_path_dsjctn step 4 (full_path = the candidate, short_path = its ROADM short list) *)')
-    out.append(f'Definition g_step4_ok (nodes_list full_path short_path : list Z) : bool :=\n  {tr.b(np_.operand)}.')
-    out.append(f'Definition g_step4_strict (strict_list : list bool) : bool :=\n  {tr.b(b["H_strict"])}.\n')
+    out.append(f'Definition g_step4_ok (nodes_list full_path short_path : list Z) : bool :=\n  {ok4}.')
+    out.append(f'Definition g_step4_strict (strict_list : list bool) : bool :=\n  {strict4}.\n')
     # ---- step 5
     b = find_block(fn, STEP5_TEMPLATE, 'compute_path_dsjctn step 5')
     tr = RTr({'candidates[dis.disjunction_id]': 'BOOL:has_candidates'})
